@@ -5,6 +5,7 @@ package flexfec
 
 import (
 	"errors"
+	"fmt"
 	"sync"
 
 	"github.com/pion/interceptor"
@@ -28,6 +29,9 @@ type FecInterceptor struct {
 	encoderFactory  EncoderFactory
 }
 
+// ErrTooManyMediaPackets is returned when NumMediaPackets exceeds what the configured encoder can protect.
+var ErrTooManyMediaPackets = errors.New("flexfec: too many media packets per FEC batch")
+
 // FecInterceptorFactory creates new FecInterceptors.
 type FecInterceptorFactory struct {
 	opts []FecOption
@@ -50,6 +54,13 @@ func (r *FecInterceptorFactory) NewInterceptor(_ string) (interceptor.Intercepto
 	for _, opt := range r.opts {
 		if err := opt(interceptor); err != nil {
 			return nil, err
+		}
+	}
+
+	// Encoder factories may declare the largest batch their encoders are able to protect.
+	if limiter, ok := interceptor.encoderFactory.(interface{ MaxMediaPackets() uint32 }); ok {
+		if limit := limiter.MaxMediaPackets(); interceptor.numMediaPackets > limit {
+			return nil, fmt.Errorf("%w: %d > %d", ErrTooManyMediaPackets, interceptor.numMediaPackets, limit)
 		}
 	}
 
